@@ -100,9 +100,11 @@ func (i *imports) Imports() []Import {
 }
 
 func (i *imports) decorateImport(imp string) string {
+	// an alias stands for whole path segments only, e.g. the alias "viper" matches
+	// "viper" and "viper/remote", but it does not match "viperx" or "viper-ext/pkg"
 	for shortcut, path := range i.prefixes {
-		if strings.Index(imp, shortcut) == 0 {
-			return strings.Replace(imp, shortcut, path, 1)
+		if imp == shortcut || strings.HasPrefix(imp, shortcut+"/") {
+			return path + strings.TrimPrefix(imp, shortcut)
 		}
 	}
 
